@@ -1155,10 +1155,22 @@ func (ss *ServerSession) handleRequestInner(sc *ServerConn, req *base.Request) (
 					th.ClientPorts = inTH.ClientPorts
 					th.ServerPorts = &[2]int{sc.s.udpRTPListener.port(), sc.s.udpRTCPListener.port()}
 				} else {
+					multicastIP, multicastRTPPort, multicastRTCPPort, ok := stream.multicastDestination(medi)
+					if !ok {
+						if ss.state == ServerSessionStateInitial {
+							ss.setuppedTransport = nil
+						}
+						ss.propsMutex.Unlock()
+
+						return &base.Response{
+							StatusCode: base.StatusBadRequest,
+						}, liberrors.ErrServerStreamClosed{}
+					}
+
 					th.Delivery = new(headers.TransportDeliveryMulticast)
 					th.TTL = new(uint(127))
-					th.Destination2 = new(stream.medias[medi].multicastWriter.ip.String())
-					th.Ports = &[2]int{stream.medias[medi].multicastWriter.rtpPort, stream.medias[medi].multicastWriter.rtcpPort}
+					th.Destination2 = new(multicastIP.String())
+					th.Ports = &[2]int{multicastRTPPort, multicastRTCPPort}
 				}
 
 			default: // TCP
